@@ -23,7 +23,7 @@ import c08_fault
 
 META = {
     "category": "proof",
-    "text": "Coq theorems (Refs/Props_C08.v, 16 theorems, closed under the global context; the last four are about I/O errors on the ingest path - Refs/IngestFault.v models LsmTree::_ingest, Manifest::_apply and rollover one fallible system call at a time: for any sequence of ingests each failing at any call every listed sst is in sst/ and nothing is removed, and the clean-up variant is refuted; tied by strace recordings of bare-tree ingests compared with the model call by call and EIO injected at every call in turn) over an executable state-machine model of lsmtk's file life cycle (reference_counter.rs; explicit_ref/unref, release_sst, install_version, compaction_finish pin/link/apply/install/unpin, _ingest, from_manifest and cleanup_orphans of tree/mod.rs; open/recover/_memtable_thread of kvs/mod.rs; verify/process_one/possibly_complete_processing/verify_one's lists/added_after of verifier.rs; mani at the level of edits and fragments). For EVERY interleaving of the store's threads (opening thread, memtable thread, any number of compaction threads, any number of readers) one system call at a time, readers taking and releasing snapshots, compactions with any names (re-created setsums included), manifest roll-overs, the process dying between any two steps and reopening, and the verifier stepping, dying and restarting anywhere: every sst named by the committed manifest, the current version or a held snapshot is in sst/ (C08_needed_not_removed); reference counts are exact and a counted sst is in place; a log is in the trash only if it is empty or its sst was committed; the orphan scan never names a listed sst whatever fragments the verifier has removed, and open() finds every listed sst; the verifier unlinks only trash entries that the fragment named in its own manifest recorded, and no verifier activity touches sst/, the root's logs, the live manifest or the highest fragment. release_sst is also modelled at the grain of dec_and's decision and its callback (Refs/ModelLock.v: IDecToZero / IRenameToTrash with any thread in between): with the table lock held across the callback every such run ends in a state of the atomic model (C08_release_callback_under_table_lock_refines_atomic_release), so nothing needed is removed; with the callback run after the lock is given up the property is refuted (C08_needed_not_removed_refuted_without_lock_across_callback). By incarnation the verifier property is refuted (known class K-verifier-by-name) and proved outside the class. The model is tied to the code by lock-step replay of real single-stepped histories on the extracted model, comparing directory contents, reference counts, manifest state, fragments and the verifier's manifest after every step; verifier passes are killed before each unlink (strace), a reader's release is placed inside a compaction (hook), a compaction's pin of a re-created sst is placed inside the release callback of the same sst (sst point hook; the pin must wait for the rename, as ModelLock.fstep says), store processes are killed inside their renames, physical entries are compared across reopens.",
+    "text": "Coq theorems (Refs/Props_C08.v, 18 theorems, closed under the global context; the last six are about I/O errors on the ingest path - Refs/IngestFault.v models LsmTree::_ingest, Manifest::_apply and rollover one fallible system call at a time: for any sequence of ingests each failing at any call every listed sst is in sst/ and nothing is removed, and the clean-up variant is refuted; tied by strace recordings of bare-tree ingests compared with the model call by call and EIO injected at every call in turn) over an executable state-machine model of lsmtk's file life cycle (reference_counter.rs; explicit_ref/unref, release_sst, install_version, compaction_finish pin/link/apply/install/unpin, _ingest, from_manifest and cleanup_orphans of tree/mod.rs; open/recover/_memtable_thread of kvs/mod.rs; verify/process_one/possibly_complete_processing/verify_one's lists/added_after of verifier.rs; mani at the level of edits and fragments). For EVERY interleaving of the store's threads (opening thread, memtable thread, any number of compaction threads, any number of readers) one system call at a time, readers taking and releasing snapshots, compactions with any names (re-created setsums included), manifest roll-overs, the process dying between any two steps and reopening, and the verifier stepping, dying and restarting anywhere: every sst named by the committed manifest, the current version or a held snapshot is in sst/ (C08_needed_not_removed); reference counts are exact and a counted sst is in place; a log is in the trash only if it is empty or its sst was committed; the orphan scan never names a listed sst whatever fragments the verifier has removed, and open() finds every listed sst; the verifier unlinks only trash entries that the fragment named in its own manifest recorded, and no verifier activity touches sst/, the root's logs, the live manifest or the highest fragment. release_sst is also modelled at the grain of dec_and's decision and its callback (Refs/ModelLock.v: IDecToZero / IRenameToTrash with any thread in between): with the table lock held across the callback every such run ends in a state of the atomic model (C08_release_callback_under_table_lock_refines_atomic_release), so nothing needed is removed; with the callback run after the lock is given up the property is refuted (C08_needed_not_removed_refuted_without_lock_across_callback). By incarnation the verifier property is refuted (known class K-verifier-by-name) and proved outside the class. The model is tied to the code by lock-step replay of real single-stepped histories on the extracted model, comparing directory contents, reference counts, manifest state, fragments and the verifier's manifest after every step; verifier passes are killed before each unlink (strace), a reader's release is placed inside a compaction (hook), a compaction's pin of a re-created sst is placed inside the release callback of the same sst (sst point hook; the pin must wait for the rename, as ModelLock.fstep says), store processes are killed inside their renames, physical entries are compared across reopens.",
     "note": "Trusted: Coq kernel; extraction (ExtrOcamlBasic) + ocaml/refs driver; harness `c08` + lsmtk hooks (cfg blue_verif: single-step, dump, verif_refs, verif_snapshot, verif_set_point_hook, verif_set_sst_point_hook, verif_compaction_select/perform); strace kill injection; checks/c08_run.py. Atomic in the model: Manifest::apply (C13), the critical section under the compaction mutex, inc_and, dec_and when its decrement is not the last (the last one is split in ModelLock.v), the read-only part of process_one, and VersionRef::drop's `Arc::strong_count == 1` test together with the drop of the Arc. The last hides a leak (seen by build-C04 and the auditor; not a removal, so not a C08 violation): explicit_unref returns early when strong_count != 1 and nobody retries, so two holders of the same old version (with >= 2 compaction threads, or a compaction and a reader) letting go at the same time can both return early; the version's ssts then stay in sst/ with their counts until the next open's cleanup_orphans, and a verifier pass before that open backs off on them. Names and roll-overs are oracle inputs; sizes/contents are C01/C10's subject. Fixed in /repo for this property: a899047 (F5), 88180bd (pin compaction outputs), and by build-C04 bc4e529 (F17), 48c731b (F18). Known class K-verifier-by-name: trash entries are addressed by name, so an intent recorded before the store re-creates and re-removes the same setsum unlinks the later incarnation.",
 }
 
